@@ -236,8 +236,12 @@ func noteParseStats(r *vstat.Run, c *gramCase, p *parsed) {
 
 var c01Opts = gram.GenOpts{MaxProds: 5, MaxDepth: 4, TrapPercent: 25, PosStyles: true, MixedUnion: true, Profiles: true}
 
-func TestC01(t *testing.T) {
-	runProp(t, "C01", c01Rule, func(t *rapid.T, r *vstat.Run) {
+func TestC01(t *testing.T) { runProp(t, "C01", c01Rule, propC01) }
+
+func FuzzC01(f *testing.F) { fuzzProp(f, "C01", propC01) }
+
+func propC01(t *rapid.T, r *vstat.Run) {
+	{
 		o := c01Opts
 		o.NameElided = rapid.IntRange(0, 9).Draw(t, "nameElided") == 0
 		g := gram.GenGrammar(t, o)
@@ -252,7 +256,7 @@ func TestC01(t *testing.T) {
 			c := &gramCase{G: g, Input: gram.Render(t, g, toks, "r"), AllowTrailing: rapid.IntRange(0, 4).Draw(t, "trailing") == 0}
 			report(t, r, checkC01(c, b, r), c)
 		}
-	})
+	}
 }
 
 func TestC01Replay(t *testing.T) {
@@ -267,4 +271,64 @@ func TestC01Replay(t *testing.T) {
 		}
 		return checkC01(&c, b, nil)
 	})
+}
+
+// shrinkGram minimises a failing (grammar, input) case structurally: rapid shrinks its random draws
+// well but leaves multi-production grammars large, so a greedy delta pass drops alternatives,
+// sequence elements, modifiers and whole production bodies while the same deviation persists.
+func shrinkGram(check func(c *gramCase, b *gram.Built) outcome) func(f *vstat.Failure) *vstat.Failure {
+	return func(f *vstat.Failure) *vstat.Failure {
+		var c gramCase
+		if err := json.Unmarshal(f.Case, &c); err != nil || c.G == nil {
+			return nil
+		}
+		var last outcome
+		fails := func(cc *gramCase) bool {
+			b, msg := buildGrammar(cc.G)
+			if msg != "" {
+				return false
+			}
+			o := check(cc, b)
+			if o.failed() && o.sig == f.Sig {
+				last = o
+				return true
+			}
+			return false
+		}
+		if !fails(&c) {
+			return nil
+		}
+		cur := c
+		for round := 0; round < 3; round++ {
+			g := gram.Shrink(cur.G, func(g *gram.Grammar) bool {
+				cc := cur
+				cc.G = g
+				return fails(&cc)
+			}, 600)
+			cur.G = g
+			cur.Input = gram.ShrinkText(cur.Input, func(s string) bool {
+				cc := cur
+				cc.Input = s
+				return fails(&cc)
+			}, 200)
+		}
+		if !fails(&cur) {
+			return nil
+		}
+		cur.Text = cur.G.String()
+		b, _ := json.Marshal(cur)
+		return &vstat.Failure{Property: f.Property, Message: last.msg, Sig: f.Sig, Case: b}
+	}
+}
+
+func init() {
+	shrinkers["C01"] = shrinkGram(func(c *gramCase, b *gram.Built) outcome { return checkC01(c, b, nil) })
+	shrinkers["C02"] = shrinkGram(func(c *gramCase, b *gram.Built) outcome { return checkC02(c, b, nil) })
+	shrinkers["C10"] = shrinkGram(func(c *gramCase, b *gram.Built) outcome {
+		if c.Input2 == "" {
+			return checkC01(c, b, nil)
+		}
+		return checkC10(c, b, nil)
+	})
+	shrinkers["C11"] = shrinkGram(func(c *gramCase, b *gram.Built) outcome { return checkC11(c, b, nil) })
 }
